@@ -7,6 +7,7 @@ from pyasn1.codec.native import decoder as native_decoder
 from pyasn1.codec.native import encoder as native_encoder
 
 from props.common import *
+from vfw.schema import T
 from vfw.schema import STR_KINDS
 
 BOUNDS = ("catalogue U_Q/U_T without ANY and REAL; values as C01 (BIT STRING lengths 0..10 incl. the empty one); native encode -> native decode "
@@ -64,10 +65,17 @@ def py_tree(t, av):
     raise ValueError(k)
 
 
-def pyval_equiv(sid, codec, **slots):
+def pyval_equiv(sid, codec, defMode=True, chunk=0, **slots):
     e = by_id(sid)
     av = e.mk(**slots)
     enc = (ber_encoder, cer_encoder, der_encoder)[codec]
+    if codec == 0:
+        # BER in every encoder mode: definite/indefinite lengths, string chunking
+        class _Ber(object):
+            @staticmethod
+            def encode(v, **kw):
+                return ber_encoder.encode(v, defMode=defMode, maxChunkSize=chunk, **kw)
+        enc = _Ber
     want = enc.encode(build(e.t, av))
     got = enc.encode(py_tree(e.t, av), asn1Spec=mk_type(e.t))
     if got != want:
@@ -85,4 +93,27 @@ for e in all_entries():
         continue
     # the native form of an OID is its dotted decimal text: arcs are narrowed (digit strings of symbolic ints are slow)
     OBLIGATIONS.append(entry_obl("native_rt", native_rt, e, narrow=e.id.startswith("oid")))
-    OBLIGATIONS.append(entry_obl("pyval_equiv", pyval_equiv, e, extra={"codec": I(0, 2)}, narrow=True, extra_shards=[{"codec": C(c)} for c in range(3)]))
+    OBLIGATIONS.append(entry_obl("pyval_equiv", pyval_equiv, e, extra={"codec": I(0, 2), "defMode": B, "chunk": I(0, 2)}, narrow=True,
+                                 extra_shards=[{"codec": C(0)}, {"codec": C(1), "defMode": C(True), "chunk": C(0)}, {"codec": C(2), "defMode": C(True), "chunk": C(0)}]))
+
+
+def pyval_long(kind, size, x, cer):
+    """Strings around the CER segment size given as plain Python values + schema vs as value objects (CER; BER chunked by 1000)."""
+    t = [T("OCTS"), T("OCTS").tagged(("I", "C", 0)), T("OCTS").tagged(("E", "C", 1)), T("STR:UTF8"), T("STR:IA5").tagged(("I", "A", 3)),
+         T("SEQ", comps=[("s", T("OCTS").tagged(("I", "C", 0)), "req", None), ("u", T("STR:UTF8"), "opt", None)])][kind]
+    n = [1000, 1001, 2001][size]
+    body = bytes([x]) + bytes([(i * 7 + 3) % 120 + 1 for i in range(n - 1)])
+    av = {"s": body, "u": body[:1001]} if t.kind == "SEQ" else body
+    if cer:
+        want = cer_encoder.encode(build(t, av))
+        got = cer_encoder.encode(py_tree(t, av), asn1Spec=mk_type(t))
+    else:
+        want = ber_encoder.encode(build(t, av), maxChunkSize=1000)
+        got = ber_encoder.encode(py_tree(t, av), asn1Spec=mk_type(t), maxChunkSize=1000)
+    if got != want:
+        return "encoding the Python value with the schema differs from encoding the value object (long string)"
+    return None
+
+
+OBLIGATIONS.append(Obl("pyval_long", pyval_long, {"kind": I(0, 5), "size": I(0, 2), "x": I(1, 120), "cer": B}, shards=[{"kind": C(k_), "cer": C(c_)} for k_ in range(6) for c_ in (False, True)],
+                       budget=150, per_path=60, doc="strings of 1000/1001/2001 octets as Python values + schema vs value objects, CER and chunked BER"))
